@@ -369,6 +369,13 @@ def _load_builtin_import(level: int, module_str: str) -> tuple[CompilerInput, vy
     # compare correctly using pointer-equality.)
     if path in _builtins_cache:
         file, ast = _builtins_cache[path]
+        # the cached AST keeps its analysed function types; the ids the
+        # previous compilation's code generation left on them must not
+        # leak into this compilation (they show up in `metadata`)
+        for func_def in ast.get_children(vy_ast.FunctionDef):
+            func_t = func_def._metadata.get("func_type")
+            if func_t is not None:
+                func_t._function_id = None
         return file, ast
 
     try:
